@@ -112,9 +112,10 @@ class CA:
     """categorical array: every item is answered with one category"""
     kind = "ca"
 
-    def __init__(self, alias, nitems, cats, insertions=None, numeric_values=None):
+    def __init__(self, alias, nitems, cats, insertions=None, numeric_values=None, selected_id=None):
         self.alias = alias
         self.n = nitems
+        self.selected_id = selected_id
         self.cats = [(int(i), bool(m)) for i, m in cats]
         self.insertions = insertions
         self.numeric_values = numeric_values or {}
@@ -148,6 +149,9 @@ class CA:
             refs1["view"] = {"transform": {"insertions": self.insertions}}
         cats = [{"id": cid, "missing": m, "name": "%s%d" % (self.alias, cid) if cid >= 0 else "No Data",
                  "numeric_value": self.numeric_values.get(cid)} for cid, m in self.cats]
+        for c in cats:
+            if self.selected_id is not None and c["id"] == self.selected_id:
+                c["selected"] = True
         d1 = {"derived": False, "references": refs1,
               "type": {"categories": cats, "class": "categorical", "ordinal": False,
                        "subvariables": list(self.subvar_ids)}}
